@@ -44,7 +44,7 @@ impl Scenario for C07 {
     fn runs(&self, tier: Tier) -> u64 {
         match tier {
             Tier::Quick => 300_000,
-            Tier::Thorough => 24_000_000,
+            Tier::Thorough => 12_000_000,
         }
     }
     fn log_runs(&self, tier: Tier) -> u64 {
@@ -252,7 +252,7 @@ impl Scenario for C10 {
     fn runs(&self, tier: Tier) -> u64 {
         match tier {
             Tier::Quick => 400_000,
-            Tier::Thorough => 20_000_000,
+            Tier::Thorough => 12_000_000,
         }
     }
     fn log_runs(&self, tier: Tier) -> u64 {
@@ -320,9 +320,14 @@ impl Scenario for Slice {
             Focus::C06 => 200_000,
             Focus::C16 => 250_000,
         };
+        // thorough: 8 .. 15 minutes each on 16 idle cores (C06 carries the largest media)
+        let f = match self.0 {
+            Focus::C06 => 25,
+            _ => 40,
+        };
         match tier {
             Tier::Quick => q,
-            Tier::Thorough => q * 80,
+            Tier::Thorough => q * f,
         }
     }
     fn log_runs(&self, tier: Tier) -> u64 {
@@ -411,7 +416,7 @@ impl Scenario for C12 {
     fn runs(&self, tier: Tier) -> u64 {
         match tier {
             Tier::Quick => 100_000,
-            Tier::Thorough => 6_000_000,
+            Tier::Thorough => 4_000_000,
         }
     }
     fn log_runs(&self, tier: Tier) -> u64 {
@@ -462,7 +467,7 @@ impl Scenario for C12 {
         );
         e.assumptions = vec![
             "faults reach this API only as file content at rest: read-level faults (EIO mid-file, short reads) cannot be injected because read_pdu/read_frame are typed to BufReader<File>".into(),
-            "termination is judged in steps of the XML reader (hook verif_hooks); a 120 s wall-clock watchdog is only a backstop".into(),
+            "termination is judged in steps of the XML reader (hook verif_hooks) and, outside it, by the CPU-time budget of the supervisor (60 s of the loading thread); wall-clock time decides nothing".into(),
             "which of the two answers (model / refusal) a damaged file gets is not judged, only counted".into(),
         ];
         e.fault_kinds = vec!["F-TRUNC", "F-FLIP", "F-BYTE", "F-DROP", "F-DUP", "F-NUM", "F-STRUCT", "F-REF", "F-NEST", "F-DEEP", "F-FILE", "F-UTF16"];
